@@ -151,7 +151,10 @@ status_t StringMatcher :: SetPattern(const String & s, bool isSimple)
                      case ',':  c = '|';              break;  // commas are treated as union-bars
                      case '.':  regexPattern += '\\'; break;  // dots are considered literals, so escape those
                      case '+':  regexPattern += '\\'; break;  // pluses are considered literals, so escape those
-                     case '*':  regexPattern += '.';  break;  // hmmm.
+                     case '*':
+                        if (regexPattern.EndsWith(".*")) continue;  // a run of stars means the same as a single star (and regcomp()'s memory usage would be quadratic in the run's length)
+                        regexPattern += '.';
+                     break;
                      case '?':  c = '.';              break;  // question marks mean any-single-char
                      case '\\': escapeMode = true;    break;  // don't transform the next character!
                      default:   /* empty */           break;
